@@ -81,6 +81,13 @@ C05Inv == R.kind = "prog" =>
             /\ \A i \in 1..Len(R.syl) :
                  /\ Honoured(R.syl[i])
                  /\ (R.syl[i].ok => R.syl[i].outBytesEqualDegree)        \* the same instances, whichever way they were written
+\* a long piece = one section repeated: the section's conversion is judged by Conv.tla, the driver reports that the long
+\* output is that block over and over (a projection: equality of decoded instances), the counts are checked here
+SectionsInv == R.kind = "sections" =>
+                 /\ Honoured(R.x) /\ R.x.ok
+                 /\ R.terminated /\ R.wholeOk
+                 /\ R.n = R.reps * Len(R.x.out)
+                 /\ R.blocksEqual
 \* a note-name text on its own: what the converter prints is what Conv.tla says it means (key changes, recurring spellings)
 SylInv == R.kind = "syl" => Honoured(R.x)
 =============================================================================
